@@ -101,6 +101,9 @@ func variants() []*Variant {
 	for i, keys := range [][]string{{"A.Own"}, {"A.X.Num"}, {"Shared.Flag"}, {"A.Y.Z.Str"}, {"A.Y.Tag"}, {"Mid.Tag"}, {"A.X"}, {"Shared.Str", "A.Own"}} {
 		add(&Variant{Name: fmt.Sprintf("excl%d:%s", i, strings.Join(keys, "+")), Prop: "C11", Base: "P-multi", Quick: i < 5, CfgA: noExcl, Mut: excl(keys...)})
 	}
+	for i, keys := range [][]string{{"R.Labels.Value"}, {"R.Value"}, {"R.Name", "R.List.Weight"}, {"Label.Name"}, {"R.Primary.Value"}} {
+		add(&Variant{Name: fmt.Sprintf("mapexcl%d:%s", i, strings.Join(keys, "+")), Prop: "C11", Base: "P-mapopt", Quick: i < 4, Mut: excl(keys...)})
+	}
 	add(&Variant{Name: "flags:required+computed+sensitive", Prop: "C11", Base: "P-multi", Quick: true, CfgA: noExcl, Mut: withCfg(func(c *Config) {
 		c.RequiredFields = []string{"A.Own", "Shared.Str"}
 		c.ComputedFields = []string{"A.X.Num", "Mid.Tag"}
